@@ -10,7 +10,10 @@ What the extraction changes / drops, exhaustively:
   * `#[derive(Debug)]` / `#[derive(Debug, Clone)]` and doc comments of the two types;
   * `AABB`, `Ray` are opaque; `AABB::intersects` is external with the single fact `is_some() == hit(box, ray)` for an
     uninterpreted predicate `hit` (the slab test itself is decided by the Kani / bounded obligations C13.aabb.*);
-  * `BVHNode::aabb()` (a three-line match returning the node's `aabb` field) is external with exactly that contract.
+  * `fn aabb(&self) -> AABB` of `impl<T> Bounded for BVHNode<T>` and `pub fn new(..) -> Self` of `impl PreorderIter` are
+    extracted verbatim too and become inherent methods with named results (`-> (r: AABB)`, `-> (r: Self)`) and an
+    `ensures`; `new`'s contract speaks through two closed spec accessors (`spec_ray`, `spec_stack`) because the fields
+    are private and the function is public;
 Trusted: std's `<Box<T> as Deref>::deref` returns the boxed value (assume_specification).
 """
 
@@ -23,7 +26,10 @@ verus! {
 pub assume_specification<T: ?Sized, A: core::alloc::Allocator>[ <Box<T, A> as Deref>::deref ](b: &Box<T, A>) -> (r: &T)
     ensures r == &**b;
 
+// (the real AABB and Ray are Copy as well)
+#[derive(Clone, Copy)]
 pub struct AABB { pub opaque: u8 }
+#[derive(Clone, Copy)]
 pub struct Ray { pub opaque: u8 }
 
 /// "the ray meets the box": uninterpreted here
@@ -43,13 +49,6 @@ pub open spec fn box_of<T>(n: BVHNode<T>) -> AABB {
         BVHNode::Leaf { aabb, .. } => aabb,
         BVHNode::Node { aabb, .. } => aabb,
     }
-}
-
-impl<T> BVHNode<T> {
-    #[verifier::external_body]
-    fn aabb(&self) -> (r: AABB)
-        ensures r == box_of(*self),
-    { unimplemented!() }
 }
 
 /// what a visited inner node leaves on the stack: its right child, then its left child (which is popped first)
@@ -263,6 +262,16 @@ proof fn theorem_traversal<T>(s: Seq<BVHNode<T>>, ray: Ray, fuel: nat)
     }
 }
 
+/// COROLLARY: an iterator made by `new(Some(root), ray)` (stack = [root], C13.traversal.starts_at_root) returns exactly
+/// the unpruned nodes of the tree, root first
+proof fn corollary_from_root<T>(root: BVHNode<T>, ray: Ray, fuel: nat)
+    requires fuel >= size(root),
+    ensures visit(seq![root], ray, fuel) == unpruned(root, ray), //@v[C13.traversal.visits_exactly_unpruned]
+{
+    lemma_single(root, ray);
+    theorem_traversal(seq![root], ray, fuel);
+}
+
 /// the contract of `next` determines its outcome: it is `step`
 proof fn lemma_step_some<T>(s: Seq<BVHNode<T>>, ray: Ray, k: int)
     requires
@@ -319,6 +328,18 @@ ENSURES = [
 ]
 # proved in GHOST over `step` alone (no executable code): calling `next` until None returns exactly the unpruned nodes
 THEOREMS = ["C13.traversal.visits_exactly_unpruned"]
+
+# (signature regex in bvh.rs, result type as written, named result, ensures [(label, clause)])
+EXTRA_FNS = [
+    (r"^    fn aabb\(&self\) -> AABB \{", "-> AABB", "-> (r: AABB)",
+     [("C13.traversal.node_box", "r == box_of(*self)")], "BVHNode"),
+    (r"^    pub fn new\(root: Option<&'a BVHNode<T>>, ray: Ray\) -> Self \{", "-> Self", "-> (r: Self)",
+     [("C13.traversal.starts_at_root", "r.spec_ray() == ray"),
+      ("C13.traversal.starts_at_root", "r.spec_stack() == (match root { Some(n) => seq![*n], None => Seq::<BVHNode<T>>::empty() })")], "PreorderIter"),
+]
+ACCESSORS = """    pub closed spec fn spec_ray(&self) -> Ray { self.ray }
+    pub closed spec fn spec_stack(&self) -> Seq<BVHNode<T>> { vals(self.stack@) }
+"""
 
 WHILE_ANCHOR = r"while let Some\(node\) = self\.stack\.pop\(\) \{"
 LOOP_INVARIANTS = [
